@@ -128,6 +128,10 @@ def build_pool(seed):
     for q in ['twenty one', 'Twenty One', 'TWENTY ONE', '5 KM', '5 km', '5 Km']:
         add('number', q, 'en-us')
         add('dimension', q, 'en-us')
+    # the same text under references that differ only in the seconds / only in the year (a memo keyed by a truncated reference would leak)
+    for q in ['now', 'I will leave now', 'in 5 minutes', 'tomorrow', '3 hours ago']:
+        for ref in ['2016-11-07T12:00:05', '2016-11-07T12:00:20', '2016-11-07T12:00:50', '2017-11-07T12:00:05']:
+            add('datetime', q, 'en-us', ref=ref)
     # 5. options of the date-time recogniser
     for o in (0, 1, 2, 4):
         add('datetime', 'from 4pm to 5pm tomorrow', 'en-us', options=o)
